@@ -351,17 +351,35 @@ func (e *Exec) symValue(t types.Type, name string) Value {
 		}
 		return &SliceV{A: e.newObj(arr, name), Len: n, Cap: n}
 	case *types.Pointer:
+		// pointers to structs under construction close cycles (keeper <-> oracle handler)
+		key := typeKey(u.Elem())
+		if _, isStruct := u.Elem().Underlying().(*types.Struct); isStruct {
+			if p, ok := e.symPtrs[key]; ok {
+				return p
+			}
+			o := e.newObj(nil, name)
+			e.symPtrs[key] = Ptr{O: o}
+			o.V = e.symValue(u.Elem(), name)
+			delete(e.symPtrs, key)
+			return Ptr{O: o}
+		}
 		return Ptr{O: e.newObj(e.symValue(u.Elem(), name), name)}
 	case *types.Interface:
 		if v, ok := e.ifaceModel(t, name); ok {
 			return v
 		}
+		// environment interfaces without a model: usable as values, unsupported when called
+		return IfaceV{V: &ModelObj{Kind: "opaque:" + typeKey(t), Name: name}}
 	case *types.Map:
 		return &MapV{M: &MapObj{KT: u.Key(), VT: u.Elem()}}
 	case *types.Signature:
 		if v, ok := e.funcModel(t, name); ok {
 			return v
 		}
+		return &FuncV{Name: "opaque:" + name, Native: func(e *Exec, a []Value) []Value {
+			e.unsupported("call of environment function without model: " + name)
+			return nil
+		}}
 	}
 	e.unsupported("symbolic value of type " + t.String() + " (" + name + ")")
 	return nil
